@@ -1,5 +1,5 @@
 (* model/TouchScan.v's scan is the one the CURRENT source has: read off the regenerated
-   statement skeleton of Channel.processInFlightQueue (peek, pop, abort when the pop fails,
+   statement skeleton of Channel.processInFlightQueue (peek, pop, on to the next entry when the pop fails,
    re-read of the deadline with the push back, then the re-queue) and of Channel.TouchMessage
    (pop, then the set, then the queue). *)
 From Coq Require Import List String Bool.
@@ -14,7 +14,7 @@ Definition has (t : string) (l : list string) : bool := existsb (String.eqb t) l
 Definition scan_rechecks (sh : list string) : option bool :=
   if negb (has "call c.inFlightPQ.PeekAndShift" (take_through "call c.popInFlightMessage" sh)) then None else
   match drop_until "call c.popInFlightMessage" sh with
-  | _ :: "if err != nil {" :: "goto exit" :: "}" :: rest =>
+  | _ :: "if err != nil {" :: "continue" :: "}" :: rest =>
       match rest with
       | "if msg.pri > t {" :: "call c.pushInFlightMessage" :: "call c.addToInFlightPQ" :: "continue" :: "}" :: rest' =>
           if has "call c.put" rest' then Some true else None
